@@ -96,6 +96,7 @@ type World struct {
 	Plans   []*workflow.Plan // the objects handed to Submit (the engine does not use them after Create... it does not; Start re-reads)
 
 	apiGoids   map[uint64]string
+	apiCur     map[string]APICall // the call each API thread is currently inside
 	LastThread string
 
 	Writes []WriteRec // durable write log (all generations)
@@ -123,6 +124,7 @@ func NewWorld(sc *Scenario) *World {
 		Objs:     map[string]*ObjInfo{},
 		PathOf:   map[uuid.UUID]string{},
 		apiGoids: map[uint64]string{},
+		apiCur:   map[string]APICall{},
 	}
 }
 
